@@ -425,6 +425,25 @@ def render_pst(facts):
     return "\n".join(out) + "\n"
 
 
+def scrape_counter():
+    """CounterFacts.v: does Counter::new enforce the 4-bit limit per class? (C02, C16)"""
+    facts, problems = {}, []
+    t = read("idlc_codegen/src/counts.rs")
+    limit = re.search(r"pub const MAX_PER_CLASS: u8 = (\d+);", t)
+    checked = bool(limit) and bool(re.search(r"assert!\(\s*count <= MAX_PER_CLASS", t)) and "+=" not in t and bool(re.search(r"fn bump\(field: &mut u8, by: usize\)", t))
+    unchecked = len(re.findall(r"\+= ", t)) >= 16 and not limit
+    facts["counter_checked"] = checked
+    facts["counter_limit"] = int(limit.group(1)) if (limit and checked) else 255
+    if checked == unchecked:
+        problems.append("counts.rs: how the Counter adds and whether it enforces a limit is not recognised")
+    return facts, problems
+
+
+def render_counter(facts):
+    return ("(* GENERATED by lib/translate.py: arithmetic and limit of idlc_codegen::counts::Counter. *)\nRequire Import Base.\n\n"
+            "Definition counter_checked : bool := %s.\nDefinition counter_limit : N := %d.\n" % ("true" if facts["counter_checked"] else "false", facts["counter_limit"]))
+
+
 def render_own(facts):
     out = ["(* GENERATED by lib/translate.py: ownership idioms of the object visitors (C, C++, Rust emitters) and of ProxyBase::consume. *)",
            "Require Import Base.", ""]
@@ -498,6 +517,11 @@ def main(outdir, probe=None):
     F.items["pst"] = pf
     if not pproblems:
         write_if_changed(os.path.join(outdir, "PstFacts.v"), render_pst(pf))
+    kf, kproblems = scrape_counter()
+    F.problems += kproblems
+    F.items["counter"] = kf
+    if not kproblems:
+        write_if_changed(os.path.join(outdir, "CounterFacts.v"), render_counter(kf))
     cf, cproblems = scrape_conc()
     F.problems += cproblems
     F.items["conc"] = cf
